@@ -26,6 +26,27 @@ var c12Combined = []any{
 	m("minProperties", 3.0, "additionalProperties", m("type", "string", "maxLength", 1.0)),
 }
 
+// compositions below a collection keyword: container x {allOf, anyOf, oneOf} x one or two members x leaf.
+// An error of the member reaches the container wrapped by the composition keyword's own error, and in multi-error
+// mode the container merges what its children return - three keyword instances at least, beyond the quick budget.
+func init() {
+	leaves := []any{m("minimum", 2.0), m("minLength", 2.0)}
+	second := []any{m("type", "number"), m("type", "string")}
+	for _, kw := range []string{"allOf", "anyOf", "oneOf"} {
+		for li, leaf := range leaves {
+			for _, members := range [][]any{{leaf}, {leaf, second[li]}, {second[li], leaf}} {
+				comp := m(kw, l(members...))
+				c12Combined = append(c12Combined,
+					m("items", cloneJSON(comp)),
+					m("properties", m("a", cloneJSON(comp))),
+					m("additionalProperties", cloneJSON(comp)),
+					m("items", m("items", cloneJSON(comp))),
+					m("properties", m("a", m("items", cloneJSON(comp)))))
+			}
+		}
+	}
+}
+
 func c12Values(size int) []any {
 	vs := ValueSet(size)
 	vs = append(vs, "2020-01-02", "2020-13-02", "2020-01-02T03:04:05Z", "!!", 4294967296.0, -4294967296.0,
@@ -49,10 +70,15 @@ const c12DiscDoc = `{"openapi":"3.0.3","info":{"title":"t","version":"1"},"paths
  "HU":{"type":"object","properties":{"h":{"$ref":"#/components/schemas/U"}}},
  "LU":{"type":"array","items":{"$ref":"#/components/schemas/U"}},
  "HV":{"type":"object","properties":{"h":{"$ref":"#/components/schemas/V"}}},
- "AU":{"allOf":[{"$ref":"#/components/schemas/U"}]}
+ "AU":{"allOf":[{"$ref":"#/components/schemas/U"}]},
+ "C":{"type":"object","required":["t"],"properties":{"t":{"type":"string"}}},
+ "W":{"oneOf":[{"$ref":"#/components/schemas/A"},{"$ref":"#/components/schemas/B"}],"discriminator":{"propertyName":"t","mapping":{"a":"#/components/schemas/A","b":"#/components/schemas/B","c":"#/components/schemas/C"}}},
+ "LW":{"type":"array","items":{"$ref":"#/components/schemas/W"}},
+ "HW":{"type":"object","properties":{"h":{"$ref":"#/components/schemas/W"}}},
+ "XW":{"type":"object","additionalProperties":{"$ref":"#/components/schemas/W"}}
 }}}`
 
-var c12DiscNames = []string{"U", "V", "HU", "LU", "HV", "AU"}
+var c12DiscNames = []string{"U", "V", "HU", "LU", "HV", "AU", "W", "LW", "HW", "XW"}
 
 func c12DiscValues() []any {
 	base := []any{
@@ -309,7 +335,7 @@ func init() {
 	core.Register(&core.Check{
 		ID: "C12",
 		Rule: "family 0: every schema with <=B keyword instances of the C01 alphabet extended with format (date, date-time, byte, int32, unknown) and an uncompilable pattern, x the C01 value list plus format probes; " +
-			"family 2: five fixed schemas in which two or three keywords report on the same array or object (uniqueItems + items + a length bound; required + properties + additionalProperties); family 1: six discriminator schemas (oneOf of two component refs, with and without mapping, bare and nested under properties/items/allOf) x 48 values. Each (schema,value) is run in default mode, " +
+			"family 2: five fixed schemas in which two or three keywords report on the same array or object (uniqueItems + items + a length bound; required + properties + additionalProperties) and 90 generated ones that put a composition below a collection keyword ({items, properties.a, additionalProperties, items.items, properties.a.items} x {allOf, anyOf, oneOf} x members {[leaf], [leaf,type], [type,leaf]} x leaf {minimum, minLength}); family 1: ten discriminator schemas (oneOf of two component refs, without mapping, with a mapping, with a mapping that also names a component outside the alternatives; bare and nested under properties/items/additionalProperties/allOf) x 48 values. Each (schema,value) is run in default mode, " +
 			"the 11 combinations of FailFast/MultiErrors/message customiser, IsMatching and the typed IsMatching helper, and within each of six further readings (request, response, formats enabled, patterns disabled, request without the readOnly check, response without the writeOnly check) the FailFast/MultiErrors combinations against that reading's own default; non-trivial = the default verdict is reject (an error exists whose pointer and value are checked) or >=1 keyword",
 		Assumptions: []string{
 			"no reference evaluator: the default-mode verdict is the yardstick for the other modes",
